@@ -238,6 +238,70 @@ fn one_report(out: &mut Out, rng: &mut Sm, dim: usize, m: &[u32], binary: bool, 
     let _ = <F as FieldElementWithInteger>::modulus;
 }
 
+/// the evaluation point really used by `verify_init`, read through the public API: a leader share
+/// whose `f` interpolates the identity (f(w^k) = w^k) makes the first element of the verifier share
+/// equal to the point itself
+fn real_eval_at(v: &Prio2, dim: usize, key: &[u8; 32], nonce: &[u8; 16]) -> Option<F> {
+    let n = (dim + 1).next_power_of_two();
+    let g = <F as NttFriendlyFieldElement>::generator();
+    let w = g.pow((1u32 << 20) / n as u32); // primitive n-th root
+    let mut share = vec![F::zero(); proof_len(dim)];
+    let mut x = w;
+    for k in 0..dim {
+        share[k] = x; // f(w^(k+1))
+        x *= w;
+    }
+    share[dim] = F::one(); // f0 = f(w^0)
+    // the unused points of f (indices dim+1..n) are zero in the server's layout, so f is the identity
+    // only if dim + 1 == n; callers pass such dimensions
+    let (_, vs) = v.verify_init(key, b"", 0, &(), nonce, &(), &Share::Leader(share)).ok()?;
+    let b = vs.get_encoded().ok()?;
+    F::get_decoded(&b[..4]).ok()
+}
+
+/// search (with this harness's own HMAC/AES) for nonces whose first field draw is an interpolation
+/// node of the second kind — a 2n-th root of unity that is not an n-th root — and check that the
+/// aggregators skip it
+fn planted_nodes(out: &mut Out, thorough: bool) {
+    let dim = (1usize << 15) - 1; // n = 2^15, 2n = 2^16: one draw in 2^17 is such a node
+    let n = dim + 1;
+    let Ok(v) = Prio2::new(dim) else { return };
+    let key = [0x42u8; 32];
+    let mut found = 0;
+    let want = if thorough { 3 } else { 1 };
+    let mut nonce = [0u8; 16];
+    for i in 0u64..(1 << 24) {
+        nonce[..8].copy_from_slice(&i.to_le_bytes());
+        let mut mac = <hmac::Hmac<sha2::Sha256> as KeyInit>::new_from_slice(&key).unwrap();
+        Mac::update(&mut mac, &nonce);
+        let tag: [u8; 32] = mac.finalize().into_bytes().into();
+        let first = keystream(&tag, 4);
+        let x = u32::from_le_bytes(first[..4].try_into().unwrap());
+        if x >= P {
+            continue;
+        }
+        let e = F::from(x);
+        let en = e.pow(n as u32);
+        if en * en == F::one() && en != F::one() {
+            // the first draw is an odd 2n-th root: the point used must be a later draw
+            let (expect, stream, draws) = eval_at(&key, &nonce, dim);
+            out.oracle(draws >= 2, || format!("planted node nonce={}", i), || "harness search inconsistent".into());
+            let real = real_eval_at(&v, dim, &key, &nonce);
+            out.oracle(real == Some(expect), || format!("evaluation point dim={} key=42.. nonce={} (first draw {} is a 2n-th root of unity)", dim, hex(&nonce), x), || format!("verify_init evaluated at {:?}, expected the next admissible draw {:?}", real.map(u32::from), u32::from(expect)));
+            if let Some(r) = real {
+                out.oracle(r.pow(2 * n as u32) != F::one(), || format!("evaluation point dim={} nonce={}", dim, hex(&nonce)), || format!("the query point {} is an interpolation node", u32::from(r)));
+                out.case(format!("c19 evalat {} {}", dim, hex(&stream)), format!("ok {}", enc(&[r])));
+            }
+            out.count("evalat.node-first");
+            found += 1;
+            if found >= want {
+                break;
+            }
+        }
+    }
+    out.oracle(found >= 1, || "planted node search".into(), || "no nonce with a node as first draw found in 2^24 tries".into());
+}
+
 pub fn run(out: &mut Out, thorough: bool, seed: u64) {
     let mut rng = Sm::new(seed ^ 0x1901);
     let dims: Vec<usize> = if thorough { vec![1, 2, 3, 4, 5, 7, 8, 15, 16, 31, 32, 100, 255, 256, 1000] } else { vec![1, 2, 3, 4, 7, 8, 15, 16, 33, 100] };
@@ -257,6 +321,7 @@ pub fn run(out: &mut Out, thorough: bool, seed: u64) {
             one_report(out, &mut rng, dim, &bad, false, thorough);
         }
     }
+    planted_nodes(out, thorough);
     // keys and nonces for which the first draws of the evaluation point are rejected cannot be
     // searched for (the nodes have density 2n/p); the planted stream does it for the model
     for dim in [1usize, 3, 8] {
